@@ -148,7 +148,7 @@ def _mt_net():
     return _MT["n"]
 
 
-def run_real(ctx, cases, entry="sequential", own_val=0.0):
+def run_real(ctx, cases, entry="sequential", own_val=0.0, nminus1_tables=()):
     """runs the real run_contingency / run_contingency_parallel with the power flow replaced by its contract: per case it fills the
     result tables with symbolic loadings (the outaged element's own entry as a real run leaves it)"""
     import copy
@@ -161,6 +161,13 @@ def run_real(ctx, cases, entry="sequential", own_val=0.0):
         lim[(el, i)] = ctx.var(f"lim_{el}{i}", 10., 150.) if (el, i) == ("line", 1) and len(cases) <= 2 else 500.
     for el in ("line", "trafo", "trafo3w"):
         net[el]["max_loading_percent"] = ctx.series([lim[(el, i)] for e2, i in MT_ELEMENTS if e2 == el], index=net[el].index)
+    for el in nminus1_tables:
+        # this table (only) carries the special N-1 limit: it is the one that counts for its elements, the normal limit is far below
+        for e2, i in MT_ELEMENTS:
+            if e2 == el:
+                lim[(e2, i)] = ctx.var(f"lim_nminus1_{e2}{i}", 10., 150.)
+        net[el]["max_loading_percent"] = 1.0
+        net[el]["max_loading_percent_nminus1"] = ctx.series([lim[(el, i)] for e2, i in MT_ELEMENTS if e2 == el], index=net[el].index)
     L, VM = {}, {}
 
     def evaluate(net_, **kw):
@@ -242,9 +249,9 @@ def obligations_real(ctx, cases, net, cr, L, lim, VM, label=""):
     _is_min(ctx, f"{label}min_vm", cr["bus"]["min_vm_pu"][0], [VM[c] for c in cases])
 
 
-def make_real(cases, own_val=0.0):
+def make_real(cases, own_val=0.0, nminus1_tables=()):
     def fn(ctx):
-        net, cr, L, lim, VM = run_real(ctx, cases, "sequential", own_val)
+        net, cr, L, lim, VM = run_real(ctx, cases, "sequential", own_val, nminus1_tables)
         obligations_real(ctx, cases, net, cr, L, lim, VM)
     return fn
 
@@ -275,6 +282,8 @@ def instances(tier):
     real = [[("line", 0), ("trafo", 0), ("trafo3w", 0)], [("trafo3w", 0), ("line", 0)]]
     if tier == "thorough":
         real += [[("trafo", 0), ("line", 1), ("trafo3w", 0)]]        # (four cases: > 20 min with the cross-check, left out)
+    out.append(Inst("run_contingency_nminus1_limit_in_the_trafo_table_only", make_real([("line", 0), ("trafo3w", 0)], nminus1_tables=("trafo",)), nvars=60, samples=2,
+                    max_paths=60000, raises=(UserWarning,), meta=dict(entry="run_contingency", nminus1_limit_column="trafo only", cases=[["line", 0], ["trafo3w", 0]])))
     for cases in real:
         nm = "run_contingency_" + "_".join(f"{e}{i}" for e, i in cases)
         out.append(Inst(nm, make_real(cases), nvars=60, samples=2, max_paths=60000, raises=(UserWarning,),
